@@ -9,6 +9,7 @@ from harness import c15_desc as DV
 from harness import c15_dom as D
 from harness import c15_judges as J
 from harness import c15_lists as LS
+from harness import c15_lst as LT
 from harness import c15_pages as P
 from harness import c15_spec as SP
 from harness import c15_styles as S
@@ -160,7 +161,7 @@ class C15(PropCheck):
     extractors = (counter_styles.generate, first_letter_table.generate, list_hints.generate)
     modules = ('WpModel.Props.C15', 'WpModel.Props.C15Pages', 'WpModel.Props.C15Desc', 'WpModel.Props.C15Text',
                'WpModel.Props.C15Lists', 'WpModel.Props.C15PagesTotal', 'WpModel.Props.C15Content',
-               'WpModel.Witness.C15')
+               'WpModel.Props.C15Symbols', 'WpModel.Witness.C15')
     trusted_base = (
         'modelled, not verified: css/validation/descriptors.py (counter-style validators), css/targets.py '
         '(cache_target_page_counters, lookup/store/check_pending), layout/page.py (counter section of make_page), '
@@ -208,6 +209,7 @@ class C15(PropCheck):
             S.rv_line = original
         self._lists(run)
         self._content_functions(run)
+        self._list_style_type(run)
         self._descriptors(run)
         self._target_text(run)
         self._cache_target(run)
@@ -558,6 +560,24 @@ class C15(PropCheck):
             sec.add(case[0], case[1], meta={'kind': 'cfn', 'text': text}, nontrivial=case[1] != 'none',
                     tags=[text.split('(')[0].lower(), 'accepted' if case[1] != 'none' else 'rejected'])
 
+    def _list_style_type(self, run):
+        sec = run.section(
+            'list-style-type',
+            'the single-token validator list_style_type (validation/properties.py; also the style argument of '
+            'counter() / counters()) on real tinycss2 tokens: identifiers, strings, symbols() with every system, '
+            'missing / extra / misplaced arguments, commas, other function names, against '
+            'Model/ListStyleType.listStyleType; non-trivial = accepted')
+        seen = set()
+        for _ in range(run.n(1500, 12000)):
+            text = LT.gen_value(run.rng)
+            case = LT.lst_case(text)
+            if case is None or case[0] in seen:
+                continue
+            seen.add(case[0])
+            sec.add(case[0], case[1], meta={'kind': 'lst', 'text': text}, nontrivial=case[1] != 'none',
+                    tags=['symbols()' if text.lower().startswith('symbol') else 'token',
+                          'accepted' if case[1] != 'none' else 'rejected'])
+
     def _descriptors(self, run):
         sec = run.section(
             'descriptor-validators',
@@ -644,6 +664,8 @@ class C15(PropCheck):
             return J.cache_target_clause(meta['line'])
         if kind == 'cfn':
             return CF.function_clause(meta['text'])
+        if kind == 'lst':
+            return LT.lst_clause(meta['text'])
         if kind == 'dv':
             return J.descriptor_clause(meta['descriptor'], meta['text'])
         if kind == 'rule':
@@ -835,6 +857,17 @@ class C15(PropCheck):
             run.search_stats['evaluations'] += 1
             what = J.descriptor_clause(dname, text)
             if what and add(what, {'meta': {'kind': 'dv', 'descriptor': dname, 'text': text}}, f'{dname}:{text}'):
+                return found
+            if what:
+                break
+        for _ in range(1500):
+            text = LT.gen_value(run.rng)
+            run.search_stats['evaluations'] += 1
+            try:
+                what = LT.lst_clause(text)
+            except Exception as exc:  # noqa: BLE001
+                what = f'list_style_type raised {type(exc).__name__} on {text}'
+            if what and add(what, {'meta': {'kind': 'lst', 'text': text}}, text):
                 return found
             if what:
                 break
@@ -1045,7 +1078,8 @@ MANIFEST = {
                  'registration, build.py counter scoping, the ol/li presentational hints of find_style_attributes with '
                  'the counter() property validator and the cascade of the counter properties on list elements, the '
                  'parsers of counter() / counters() / target-counter() / target-counters() / target-text() '
-                 '(check_counter_function, get_target) on real tinycss2 tokens, '
+                 '(check_counter_function, get_target) and the list_style_type validator with symbols() on real '
+                 'tinycss2 tokens, '
                  'target-counter / target-text evaluation order, TargetCollector.cache_target_page_counters and the '
                  'counter section of make_page, the layout_document re-pagination loop; the UA counter-style table, '
                  'the first-letter punctuation table and the hint table (AST of find_style_attributes, constant parts '
@@ -1066,6 +1100,8 @@ MANIFEST = {
             'the counter name of every counter function is the identifier as written (never case-folded); '
             'update_counters agrees with the css-lists-3 order on every counter an element does not both set and '
             'increment; cache_target_page_counters re-parses a box with its own page counters; '
+            'a symbols() value the validator accepts renders every value as its padded initial representation or '
+            'exactly as decimal does (no exception, no decimal exit for want of symbols); '
             'an accepted target-counter() always names a counter style; the items after <li value=v> count v+1, v+2, … '
             'whatever nested lists the item holds; '
             '<ol start=s> makes its items count s, s+1, … for every integer s (0 and negatives included) and <li '
